@@ -480,6 +480,13 @@ pub fn gen_chaos(prop: &str, seed: u64) -> Case {
 
 /// Direct-call histories: one table shared by a seeded sequence of (position, depth limit, stop poll) items.
 pub fn gen_direct_history(prop: &str, seed: u64, faults: bool) -> Case {
+    gen_direct_history_on(prop, seed, faults, false)
+}
+
+/// `tiny_only`: every game of the history starts from a root with little material (K+P, K+R, K+Q, K+B+N v K, mates in one
+/// and two, single-reply roots ...): forced mates abound there, the table fills with mate scores and bound entries, and
+/// items run deeper.
+pub fn gen_direct_history_on(prop: &str, seed: u64, faults: bool, tiny_only: bool) -> Case {
     let mut rng = Rng::new(seed, 0x06);
     let mut case = Case::new(prop, if faults { "direct-table-history" } else { "direct-table-history/fault-free" }, seed, Mode::Direct);
     case.params.policy = Policy::Np;
@@ -488,7 +495,12 @@ pub fn gen_direct_history(prop: &str, seed: u64, faults: bool) -> Case {
     case.params.max_steps = 1_000_000;
     let n_games = rng.range(1, 3);
     for _ in 0..n_games {
-        let (root, class) = if rng.chance(1, 3) {
+        let (root, class) = if tiny_only {
+            let names = ["KPK", "KPK-b", "KRK", "KQK", "KBNK", "mate-in-2-small", "underpromo-mate", "promo-rich", "ep-only-move-b", "ep-only-move-w", "edge-promotions", "single-reply", "single-reply-b"];
+            let nm = *rng.pick(&names);
+            let r = ROOTS.iter().find(|x| x.name == nm).unwrap();
+            (r.fen.to_string(), 0u8)
+        } else if rng.chance(1, 3) {
             let grp = rng.pick(SIBLINGS);
             let f = *rng.pick(grp);
             (f.to_string(), piece_class(&Pos::from_fen(f).unwrap()))
@@ -516,7 +528,7 @@ pub fn gen_direct_history(prop: &str, seed: u64, faults: bool) -> Case {
         } else {
             (root, class)
         };
-        let n_items = rng.range(2, 10);
+        let n_items = if tiny_only { rng.range(8, 24) } else { rng.range(2, 10) };
         for _ in 0..n_items {
             let cls = if at > 4 { class.max(1) } else { class };
             let depth = rng.range(1, max_depth_for(cls)) as u8;
@@ -1900,7 +1912,15 @@ fn gen_inner(prop: &str, seed: u64, thorough: bool) -> Case {
             0..=2 => gen_session(prop, seed, 1, true),
             3 => gen_session(prop, seed, 1, false),
             4..=6 => gen_direct_history(prop, seed, true),
-            7 => gen_direct_history(prop, seed, false),
+            7 => {
+                if seed % 20 == 17 || seed % 40 == 7 {
+                    let mut c = gen_direct_history_on(prop, seed, true, true);
+                    c.family = "direct-table-history/mate-heavy".into();
+                    c
+                } else {
+                    gen_direct_history(prop, seed, false)
+                }
+            }
             8 => gen_sibling_pairs(prop, seed),
             _ => {
                 if seed % 20 == 9 {
